@@ -39,10 +39,10 @@ def checks_table(ctx):
     cached = getattr(ctx, '_checks_table', None)
     if cached is not None:
         return cached
-    from .absint import EVENT_LOG
-    cv = ctx.p.func(CHECKS_MOD, 'check_value')
-    if cv is None:
-        raise AnalysisError(f'check_value not found in {CHECKS_MOD}')
+    try:
+        cv_ref = ctx.f.global_value(ctx.p.module(CHECKS_MOD), 'check_value')
+    except Exception as e:       # noqa: BLE001
+        raise AnalysisError(f'check_value not found in {CHECKS_MOD}: {e}')
     names = ['type', 'time']
     for row in specs(ctx):
         for nm in row['value_names']:
@@ -51,26 +51,33 @@ def checks_table(ctx):
     ai = AbsInt(ctx.f)
     ai.no_probe = True
     table = {}
+    real_apply = ai.apply
     for name in sorted(names):
         probe = Opaque(f'value of {name}')
         found = []
 
-        def thunk():
-            try:
-                return ai.call_function(cv, [name, probe], {})
-            finally:
-                if not found:
-                    for e in EVENT_LOG:
-                        if e[0] == 'enter' and e[1] != cv.qname and len(e) > 4 and e[2] is probe:
-                            found.append(e)
-                            break
+        def spy(f, args, kwargs, node, found=found, probe=probe):
+            # the first callable of the program that is applied to the marker itself (below check_value): the check of this name
+            if not found and args and args[0] is probe and f is not cv_ref and \
+                    (isinstance(f, FuncRef) or (isinstance(f, tuple) and len(f) == 3 and f[0] in ('closure', 'bound'))):
+                if not (isinstance(f, tuple) and f[0] == 'bound' and isinstance(cv_ref, tuple) and cv_ref[0] == 'bound' and f[2] is cv_ref[2]):
+                    found.append(f)
+            return real_apply(f, args, kwargs, node)
+        ai.apply = spy
         try:
-            ai.explore(thunk, limit=256)
+            ai.explore(lambda: real_apply(cv_ref, [name, probe], {}, None), limit=256)
         except (Unsupported, AnalysisError):
             pass
+        finally:
+            ai.apply = real_apply
         if found:
-            info, closure = found[0][3], found[0][4]
-            table[name] = FuncRef(info) if closure is None else ('closure', info, closure)
+            f = found[0]
+            table[name] = FuncRef(f[2]) if isinstance(f, tuple) and f[0] == 'bound' and not isinstance(f[1], AObj) else f
+    cvq = getattr(getattr(cv_ref, 'info', None), 'qname', 'check_value')
+
+    class _CV:
+        qname = cvq
+    cv = _CV
     if not table:
         raise AnalysisError(f'{cv.qname} applies no check function to the value for any attribute name')
     ctx._checks_table = table
